@@ -41,6 +41,11 @@ SHAPES = {
     "enums": ("c", "enum e1 { A, B };\nstruct he { enum e1 e; int i; };\n"),
     "aligned": ("c", "struct __attribute__((aligned(64))) al { int i; };\nstruct hal { struct al a; };\n"),
     "cxx": ("c++", "struct vt { virtual void m(); int i; };\nstruct dt { ~dt(); int i; };\nstruct hvt { vt v; };\nstruct hdt { dt d; };\ntemplate<class T> struct tp { T t; T arr[3]; };\nstruct utp { tp<int> a; tp<float> b; };\nstruct fwd;\nstruct ufwd { fwd* p; };\n"),
+    # facts that reach a class only through its bases (float, destructor, vtable, large array)
+    "cxx-bases": ("c++", "struct fb { float f; };\nstruct fd : fb { int i; };\nstruct fdd : fd { char c; };\nstruct hfdd { fdd m; fdd arr[2]; };\n"
+                         "struct db { ~db(); int i; };\nstruct dd : db { int j; };\nstruct hdd { dd m; };\n"
+                         "struct vb { virtual void m(); };\nstruct vd : vb { int k; };\n"
+                         "struct ab { int a[40]; };\nstruct ad : ab { int l; };\nstruct had { ad m; };\n"),
     "noderive": ("c", "struct nd { int i; };\nstruct hnd { struct nd n; };\n"),
     "blocked": ("c", "struct blk { int i; };\nstruct hblk { struct blk b; int j; };\nstruct pblk { struct blk *b; };\n"),
 }
